@@ -217,12 +217,16 @@ namespace vh
       }();
       return i;
    }
+   inline std::vector< std::string >& act_lines();
    inline void print_table()
    {
       Table& t = table();
       for( std::size_t i = 0; i < t.lines.size(); ++i ) {
          std::printf( "NODE %s\n", t.lines[ i ].c_str() );
          std::printf( "NAME %zu %s %s\n", i, hex( t.names[ i ] ).c_str(), hex( t.msgs[ i ] ).c_str() );
+      }
+      for( const auto& l : act_lines() ) {
+         std::printf( "%s\n", l.c_str() );
       }
    }
 
@@ -386,10 +390,11 @@ namespace vh
    template< int K > struct inline_id< ia0< K > > { static constexpr int value = K; };
 
    // ------------------------------------------------------------------ control families
+   inline void step();
    template< int Ctl, bool Unwind, typename R >
    struct obs_control : normal< R >
    {
-      template< typename In, typename... S > static void start( const In& in, S&&... ) { ev_hook( 'S', Ctl, index_of< R >(), in.position() ); }
+      template< typename In, typename... S > static void start( const In& in, S&&... ) { step(); ev_hook( 'S', Ctl, index_of< R >(), in.position() ); }
       template< typename In, typename... S > static void success( const In& in, S&&... ) { ev_hook( 'O', Ctl, index_of< R >(), in.position() ); }
       template< typename In, typename... S > static void failure( const In& in, S&&... ) { ev_hook( 'F', Ctl, index_of< R >(), in.position() ); }
       template< typename In, typename... S > [[noreturn]] static void raise( const In& in, S&&... st )
@@ -404,10 +409,49 @@ namespace vh
       }
       template< typename In, typename... S, bool V = Unwind > static auto unwind( const In& in, S&&... ) -> std::enable_if_t< V > { ev_hook( 'U', Ctl, index_of< R >(), in.position() ); }
    };
+   // families 2 and 3 additionally trace every Control< Rule >::match invocation (enabled or not):
+   // rule, apply mode, rewind mode, position before; result and position after
+   template< int Ctl, bool Unwind, typename R >
+   struct trace_control : obs_control< Ctl, Unwind, R >
+   {
+      template< apply_mode A, rewind_mode M, template< typename... > class Action, template< typename... > class Control, typename In, typename... S >
+      [[nodiscard]] static bool match( In& in, S&&... st )
+      {
+         const int r = index_of< R >();
+         if( r < 0 ) {
+            return normal< R >::template match< A, M, Action, Control >( in, st... );
+         }
+         {
+            char b[ 64 ];
+            std::snprintf( b, sizeof b, "B%d,%d,%d,%d", Ctl, r, int( A == apply_mode::action ), int( M == rewind_mode::required ) );
+            lg() += b;
+            lpos( in.position() );
+            lg() += ';';
+         }
+         bool res;
+         try {
+            res = normal< R >::template match< A, M, Action, Control >( in, st... );
+         }
+         catch( ... ) {
+            lg() += "E" + std::to_string( Ctl ) + "," + std::to_string( r ) + ",2";
+            lpos( in.position() );
+            lg() += ';';
+            throw;
+         }
+         lg() += "E" + std::to_string( Ctl ) + "," + std::to_string( r ) + "," + std::to_string( int( res ) );
+         lpos( in.position() );
+         lg() += ';';
+         return res;
+      }
+   };
+   template< typename R > struct ctl2 : trace_control< 2, true, R > {};
+   template< typename R > struct ctl3 : trace_control< 3, false, R > {};
    template< typename R > struct ctl0 : obs_control< 0, true, R > {};
    template< typename R > struct ctl1 : obs_control< 1, false, R > {};
    template<> struct ctl_id< ctl0 > { static constexpr int value = 0; };
    template<> struct ctl_id< ctl1 > { static constexpr int value = 1; };
+   template<> struct ctl_id< ctl2 > { static constexpr int value = 2; };
+   template<> struct ctl_id< ctl3 > { static constexpr int value = 3; };
 
    // ------------------------------------------------------------------ match-level action markers for custom families
    struct m_change_state : change_state< st< 0 > > {};
@@ -442,12 +486,13 @@ namespace vh
    template< typename A, typename = void > struct vbase_of { using type = void; };
    template< typename A > struct vbase_of< A, std::void_t< typename A::vbase > > { using type = typename A::vbase; };
 
+   inline std::vector< std::string >& act_lines() { static std::vector< std::string > v; return v; }
    template< template< typename... > class Act, typename R >
    void print_custom_act( int fam )
    {
       using vb = typename vbase_of< Act< R > >::type;
       if constexpr( !std::is_same_v< vb, void > ) {
-         std::printf( "ACT %d %d %s\n", fam, index_of< R >(), akind_of_base< vb >::str().c_str() );
+         act_lines().push_back( "ACT " + std::to_string( fam ) + " " + std::to_string( index_of< R >() ) + " " + akind_of_base< vb >::str() );
       }
    }
    template< typename R > void dump_custom_acts();
@@ -469,7 +514,6 @@ namespace vh
    }
 
    // ------------------------------------------------------------------ running
-   extern std::vector< std::string > inputs;
 
    inline std::string describe_exception( const std::exception_ptr& ep );
    inline std::string describe_parse_error( const parse_error& e )
@@ -517,41 +561,78 @@ namespace vh
    template<> struct eol_name< eol::lf_crlf > { static constexpr const char* v = "lf_crlf"; };
    template<> struct eol_name< eol::cr_crlf > { static constexpr const char* v = "cr_crlf"; };
 
+   // ---------------------------------------------------------------- runaway protection (a changed library may loop)
+   struct runaway {};
+   inline long& steps() { static long n = 0; return n; }
+   inline void step()
+   {
+      if( ++steps() > 20000 ) {
+         throw runaway{};
+      }
+   }
+
    // one configuration = one instantiation of parse<>
+   using runfn = void ( * )( int gid, int root, const std::string& cfg, const std::string& input );
+   struct Entry
+   {
+      int gid;
+      int root;
+      std::string cfg;
+      runfn fn;
+   };
+   inline std::vector< Entry >& registry()
+   {
+      static std::vector< Entry > r;
+      return r;
+   }
+
+   template< typename G, template< typename... > class Act, template< typename... > class Ctl, apply_mode A, rewind_mode M, typename Eol >
+   void run_one( const int gid, const int root, const std::string& cfg, const std::string& s )
+   {
+      lg().clear();
+      st_counter() = 0;
+      steps() = 0;
+      // exact-size heap copy, no terminator
+      char* buf = new char[ s.size() ? s.size() : 1 ];
+      std::memcpy( buf, s.data(), s.size() );
+      std::string res;
+      std::string cur;
+      {
+         input_with_depth< memory_input< tracking_mode::eager, Eol > > in( buf, buf + s.size(), "s" );
+         try {
+            const bool r = parse< G, Act, Ctl, A, M >( in );
+            res = r ? "T" : "F";
+         }
+         catch( const runaway& ) {
+            res = "RUNAWAY";
+         }
+         catch( ... ) {
+            res = "X" + describe_exception( std::current_exception() );
+         }
+         const auto p = in.position();
+         cur = std::to_string( p.byte ) + "," + std::to_string( p.line ) + "," + std::to_string( p.column );
+         if( in.current_depth() != 0 ) {
+            cur += ",DEPTH=" + std::to_string( in.current_depth() );
+         }
+         if( in.end() != buf + s.size() ) {
+            cur += ",ENDMOVED";
+         }
+      }
+      delete[] buf;
+      if( res == "RUNAWAY" ) {
+         lg() = "";
+         cur = "";
+      }
+      std::printf( "RUN %d %d %s %s | %s | %s | %s\n", gid, root, cfg.c_str(), hex( s ).c_str(), res.c_str(), cur.c_str(), lg().c_str() );
+   }
+
    template< typename G, template< typename... > class Act, template< typename... > class Ctl, apply_mode A, rewind_mode M, typename Eol = eol::lf_crlf >
-   void run_cfg( int gid )
+   void reg( const int gid )
    {
       const int root = dump< G >();
+      dump_custom_acts< G >();
       char cfg[ 96 ];
       std::snprintf( cfg, sizeof cfg, "%d.%d.%d.%d.%s", fam_id< Act >::value, ctl_id< Ctl >::value, int( A == apply_mode::action ), int( M == rewind_mode::required ), eol_name< Eol >::v );
-      for( const auto& s : inputs ) {
-         lg().clear();
-         st_counter() = 0;
-         // exact-size heap copy, no terminator
-         char* buf = new char[ s.size() ? s.size() : 1 ];
-         std::memcpy( buf, s.data(), s.size() );
-         std::string res;
-         std::string cur;
-         {
-            input_with_depth< memory_input< tracking_mode::eager, Eol > > in( buf, buf + s.size(), "s" );
-            try {
-               const bool r = parse< G, Act, Ctl, A, M >( in );
-               res = r ? "T" : "F";
-            }
-            catch( ... ) {
-               res = "X" + describe_exception( std::current_exception() );
-            }
-            const auto p = in.position();
-            cur = std::to_string( p.byte ) + "," + std::to_string( p.line ) + "," + std::to_string( p.column );
-            if( in.current_depth() != 0 ) {
-               cur += ",DEPTH=" + std::to_string( in.current_depth() );
-            }
-            if( in.end() != buf + s.size() ) {
-               cur += ",ENDMOVED";
-            }
-         }
-         delete[] buf;
-         std::printf( "RUN %d %d %s %s | %s | %s | %s\n", gid, root, cfg, hex( s ).c_str(), res.c_str(), cur.c_str(), lg().c_str() );
-      }
+      registry().push_back( Entry{ gid, root, cfg, &run_one< G, Act, Ctl, A, M, Eol > } );
    }
 }  // namespace vh
